@@ -40,6 +40,10 @@ func (m *Migrator) Migrate(body []byte, target uint) (newBody []byte, upgraded b
 	err = yaml.Unmarshal(body, &diskConf)
 	if err != nil {
 		return body, false, fmt.Errorf("parsing config file for upgrade: %w", err)
+	} else if diskConf == nil {
+		// The document is an explicit null, e.g. a lone "---".  Treat it as an
+		// empty one.
+		diskConf = yobj{}
 	}
 
 	currentInt, _, err := fieldVal[int](diskConf, "schema_version")
